@@ -6,6 +6,7 @@ import (
 	"io"
 	"os"
 	"path/filepath"
+	"sync"
 
 	"github.com/go-git/go-billy/v5"
 	"github.com/go-git/go-billy/v5/util"
@@ -17,6 +18,11 @@ type PersistedClock struct {
 	*MemClock
 	root     billy.Filesystem
 	filePath string
+
+	// writeMu makes the file follow the counter: without it, two goroutines that moved the clock
+	// at the same time could rename their files in the other order, and the file would end up
+	// behind the times already handed out (the next process would hand them out again)
+	writeMu sync.Mutex
 }
 
 // NewPersistedClock create a new persisted Lamport clock
@@ -106,7 +112,11 @@ func (pc *PersistedClock) read() error {
 }
 
 func (pc *PersistedClock) Write() error {
-	data := []byte(fmt.Sprintf("%d", pc.counter))
+	pc.writeMu.Lock()
+	defer pc.writeMu.Unlock()
+
+	// the value as it is now, inside the lock: the last write to reach the file is the highest
+	data := []byte(fmt.Sprintf("%d", uint64(pc.Time())))
 
 	// Write a temporary file and rename it over the clock: truncating the clock in place leaves,
 	// when the process dies in between, an empty file (the repository can't be opened anymore)
